@@ -204,8 +204,17 @@ func (p *Proc) sleep(ms int) bool {
 	}
 }
 
+func (p *Proc) killedAlready() bool {
+	select {
+	case <-p.killCh:
+		return true
+	default:
+		return false
+	}
+}
+
 func (p *Proc) run() {
-	if p.script.Fork && p.Parent == nil {
+	if p.script.Fork && p.Parent == nil && !p.killedAlready() { // a killed shell forks nothing
 		// the shell: start the worker child in the same process group and wait for it
 		o := p.os
 		o.mu.Lock()
